@@ -195,6 +195,7 @@ class Scratch:
         self.dir = os.path.join(SCRATCH_ROOT, f"verif-{tag}-{os.getpid()}")
         self.repo = os.path.join(self.dir, "repo")
         self.overlay_log = []
+        self.slices = []  # every K-slice added to this scratch copy (re-added after a sanity-mutant edit)
 
     def create(self):
         shutil.rmtree(self.dir, ignore_errors=True)
@@ -282,6 +283,8 @@ class Scratch:
                 + "\n        ".join(stmts) + f"\n        {sl['result']}\n    }}\n}}\n")
         with open(path, "a") as f:
             f.write(text)
+        if sl not in self.slices:
+            self.slices.append(sl)
         self.overlay_log.append(f"{sl['file']}: appended #[cfg(kani)] K-slice `{sl['name']}` = {len(stmts)} verbatim statement(s) of /{sl['fn_anchor']}/ (everything else in the function dropped)")
         return [sha256(x) for x in stmts]
 
